@@ -1061,13 +1061,33 @@ def o_c20(recs):
     return bad
 
 
+def o_c06_addressable(recs):
+    """C06, second sentence: a tracked path or tracked directory named to add / rm / restore is found and a
+    directory operation selects exactly the tracked paths beneath it — the verdicts of the C04 and C09 oracles
+    on the steps whose arguments name something tracked"""
+    out = []
+    for i, m in o_c04(recs) + o_c09(recs):
+        r = recs[i]
+        idx = staged(r.before) or {}
+        args = [a for a in r.step.argv[1:] if isinstance(a, bytes) and not a.startswith(b"--")]
+        if any(a in idx or any(under(a, q) for q in idx) for a in args):
+            out.append((i, m))
+    return out
+
+
+def o_c11_reset_agrees(recs):
+    """C11, last clause: `reset HEAD@{n}` resolves position n to the entry `reflog` shows there (C08 oracle's
+    verdict on reset steps)"""
+    return [(i, m) for i, m in o_c08(recs) if recs[i].step.kind == "cmd" and recs[i].step.name == "reset"]
+
+
 def o_c08_positions(recs):
     """C08 resolves HEAD@{n} against what `reflog` prints: the printed positions must be 0..n-1"""
     return [(i, m) for i, m in o_c11(recs) if "positions" in m]
 
 
 ORACLES = {
-    "C01": [o_c01], "C02": [o_c02], "C03": [o_c03], "C04": [o_c04], "C05": [o_c05], "C06": [o_c06],
-    "C07": [o_c07], "C08": [o_c08, o_c08_positions], "C09": [o_c09], "C10": [o_c10], "C11": [o_c11], "C12": [o_c12],
+    "C01": [o_c01], "C02": [o_c02], "C03": [o_c03], "C04": [o_c04], "C05": [o_c05], "C06": [o_c06, o_c06_addressable],
+    "C07": [o_c07], "C08": [o_c08, o_c08_positions], "C09": [o_c09], "C10": [o_c10], "C11": [o_c11, o_c11_reset_agrees], "C12": [o_c12],
     "C13": [o_c13], "C14": [o_c14], "C17": [o_c17], "C18": [o_c18], "C20": [o_c20],
 }
